@@ -34,7 +34,11 @@ How the code is read (so that behaviour-preserving rewrites stay silent):
     tests give the same symbolic string  '^' JOIN(sep, segments) tail '$';
   * variables of _compile_path_pattern are identified by role (what is passed to _SEG_TMPL.format, what
     indexes the tables, what is returned), never by name; group sources are followed through
-    ``m.groupdict()['x']`` / ``m.group('x')`` / ``m['x']``;
+    ``m.groupdict()['x']`` / ``m.group('x')`` / ``m['x']`` / ``a, b = m.group('x', 'y')``, held in a variable or read
+    off the match in place;
+  * a local bound once to a plain copy of another local (``op = raw_op``, also what inlining a helper that returns
+    ``(name, op, type_name)`` leaves behind) stands for what the other held *when the copy was taken*: the ':'
+    normalisation and the default type must have been applied on every path to the copy;
   * converters: conditions are compared as sets of facts (``optional and not value`` == ``not value and
     optional`` == nested ifs), single-assignment temporaries are inlined, the list of conversions may be a
     comprehension, ``list(map(...))`` or an explicit append loop.
@@ -49,7 +53,7 @@ from .. import regexq
 from ..loader import Sym, Unfoldable
 from ..astutil import argn, names_loaded, names_stored, assigned_value
 from .common import (cfg_of, fkey, conds, has_cond, cond_texts, stmts_of, walk_body, call_tail, call_name, returns_of,
-                     raises_of, raise_type, stmt_of, kwarg, protected_by, implies_absent, handler_reraises_always)
+                     raises_of, raise_type, stmt_of, kwarg, protected_by, implies_absent, implies_present, handler_reraises_always)
 from ..cfg import enclosing_tries
 
 ROUTE = 'clastic.route'
@@ -127,9 +131,42 @@ def _defs(fi, name, _depth=0):
                 out.append((st, pd[0].elts[idx]))
             else:
                 out.append((st, None))
+        elif isinstance(idx, int) and isinstance(st, ast.Assign) and _is_multi_group(val):
+            # a, b = m.group('x', 'y'): element i is m.group(<i-th name>) (what re documents for several arguments)
+            tgt = [t for t in st.targets if isinstance(t, (ast.Tuple, ast.List)) and len(t.elts) > idx and
+                   isinstance(t.elts[idx], ast.Name) and t.elts[idx].id == name]
+            if tgt and len(tgt[0].elts) == len(val.args) and not any(isinstance(e, ast.Starred) for e in tgt[0].elts):
+                out.append((st, ast.copy_location(ast.Call(func=val.func, args=[val.args[idx]], keywords=[]), val)))
+            else:
+                out.append((st, None))
         else:
             out.append((st, None))
     return out
+
+
+def _is_multi_group(e):
+    return isinstance(e, ast.Call) and isinstance(e.func, ast.Attribute) and e.func.attr == 'group' and len(e.args) >= 2 and not e.keywords and \
+        all(isinstance(a, ast.Constant) and isinstance(a.value, str) for a in e.args)
+
+
+def _copy_root(fi, var):
+    """(root, copies): follows ``var = other`` while the local is bound exactly once, by a plain copy of another local
+    (alone or as an element of ``a, b = x, y``).  At each of its uses such a local holds what ``other`` held when the copy
+    last ran, so what is known about ``other`` *at the copy* is known about ``var``.  copies: the copy statements, the one
+    reading the root last."""
+    copies, seen = [], set([var])
+    params = _all_params(fi)
+    while var not in params and _stores(fi.node, var) == 1:
+        d = _defs(fi, var)
+        if len(d) != 1 or not isinstance(d[0][0], ast.Assign) or not isinstance(d[0][1], ast.Name) or d[0][1].id in seen:
+            break
+        st, val = d[0]
+        if not (val is st.value or (isinstance(st.value, (ast.Tuple, ast.List)) and any(val is e for e in st.value.elts))):
+            break
+        var = val.id
+        seen.add(var)
+        copies.append(st)
+    return var, copies
 
 
 def _single_def(fi, name):
@@ -805,14 +842,17 @@ def _rule_b(rep, R, tabs):
     ok = opvar is not None and all(len(R.lookups.get(tab, [])) == 1 for tab in OP_TABLES) and all(key == opvar for node, key, var in op_lookups)
     rep.check('R05.b', fkey(cp, 'operator is the quantifier'), ok, 'the looked-up operator %s is used verbatim as the group quantifier' % opvar if ok else
               'the quantifier put into the segment (%s) is not the operator looked up in the tables' % R.kwt.get('arity'), route, R.fc)
+    # the variable that is used may be a copy (``op = parsed_op``, bound once) of the one that is normalised: then the
+    # normalisation has to be done when the copy is taken
+    oproot, opcopies = _copy_root(cp, opvar) if opvar is not None else (None, [])
     is_colon = lambda t: isinstance(t, ast.Compare) and len(t.ops) == 1 and isinstance(t.ops[0], ast.Eq) and \
-        sorted([norm(t.left), norm(t.comparators[0])]) == sorted([str(opvar), "':'"])
-    norm_st = [s for s in stmts_of(cp.node) if isinstance(s, ast.Assign) and len(s.targets) == 1 and norm(s.targets[0]) == opvar and isinstance(s.value, ast.Constant)
+        sorted([norm(t.left), norm(t.comparators[0])]) == sorted([str(oproot), "':'"])
+    norm_st = [s for s in stmts_of(cp.node) if isinstance(s, ast.Assign) and len(s.targets) == 1 and norm(s.targets[0]) == oproot and isinstance(s.value, ast.Constant)
                and s.value.value == '' and has_cond(conds(cp, s), is_colon, True)]
     # ... or through an alias table:  op = ALIASES.get(op, op)  with ALIASES == {':': ''}
-    norm_st += [s for s in stmts_of(cp.node) if isinstance(s, ast.Assign) and len(s.targets) == 1 and norm(s.targets[0]) == opvar and
-                _alias_lookup(rep.repo, route, cp, s.value, opvar) == {':': ''}]
-    users = [stmt_of(route, node) for node, key, var in op_lookups] + [stmt_of(route, R.fc)]
+    norm_st += [s for s in stmts_of(cp.node) if isinstance(s, ast.Assign) and len(s.targets) == 1 and norm(s.targets[0]) == oproot and
+                _alias_lookup(rep.repo, route, cp, s.value, oproot) == {':': ''}]
+    users = [stmt_of(route, node) for node, key, var in op_lookups] + [stmt_of(route, R.fc)] + opcopies
     ok = opvar is not None and len(norm_st) == 1 and bool(op_lookups) and \
         all(ccfg.must_pass(ccfg.nodes_of(norm_st[0]) + [n.id for n in ccfg.nodes if n.kind == 'branch' and is_colon(n.test) and n.pol is False],
                            ccfg.entry, ccfg.nodes_of(s)) for s in users)
@@ -1202,6 +1242,7 @@ def _var_sources(R, var):
     """-> (sources, constants): non-constant values bound to the local (``x or 'd'`` counts as source x and
     default 'd'), and the string constants bound to it [(stmt, text, kind)]."""
     sources, consts = [], []
+    var = _copy_root(R.cp, var)[0]         # a local bound once to a copy of another local holds whatever that one can hold
     for st, val in _defs(R.cp, var):
         if val is None:
             sources.append((st, None))
@@ -1213,7 +1254,8 @@ def _var_sources(R, var):
             consts.append((st, val.value, 'assign'))
         elif isinstance(val, ast.BoolOp) and isinstance(val.op, ast.Or) and len(val.values) == 2 and \
                 isinstance(val.values[1], ast.Constant) and isinstance(val.values[1].value, str):
-            sources.append((st, val.values[0]))
+            if not (isinstance(val.values[0], ast.Name) and val.values[0].id == var):      # x = x or 'd': no new source
+                sources.append((st, val.values[0]))
             consts.append((st, val.values[1].value, 'or'))
         else:
             sources.append((st, val))
@@ -1227,12 +1269,22 @@ def _rule_e_bindings(rep, R, convs, pats):
     T = R.typevar
     if T is None:
         raise AnalysisError('_compile_path_pattern: the variable holding the type name was not found (key of the TYPE_*_MAP lookups)')
+    Troot, Tcopies = _copy_root(cp, T)
     srcs, consts = _var_sources(R, T)
-    dflt = [c for c in consts if c[2] == 'or' or (c[2] == 'assign' and implies_absent(conds(cp, c[0]), T))]
+    dflt = [c for c in consts if c[2] == 'or' or (c[2] == 'assign' and implies_absent(conds(cp, c[0]), Troot))]
     if convs is not None:
         ok = len(dflt) == 1 and len(consts) == 1 and dflt[0][1] in convs and convs[dflt[0][1]][1] == pats['_STR_PATTERN']
-        rep.check('R05.e', fkey(cp, 'default type'), ok, 'a binding without a type is a string binding' if ok else 'the default binding type is not a registered string type', route,
-                  dflt[0][0] if dflt else cp.node)
+        if ok:
+            # ... and it has fallen back when the tables are consulted (or when the copy that is consulted is taken): every path
+            # there runs the defaulting statement or a test that found a type name
+            ccfg = R.cfg
+            through = ccfg.nodes_of(dflt[0][0])
+            if dflt[0][2] == 'assign':
+                through = through + [nid for nid, t, p in ccfg.branches() if implies_present([(t, p)], Troot)]
+            users = [stmt_of(route, node) for tab in TYPE_TABLES for node, key, var in R.lookups.get(tab, [])] + Tcopies
+            ok = all(ccfg.must_pass(through, ccfg.entry, ccfg.nodes_of(u)) for u in users if u is not dflt[0][0])
+        rep.check('R05.e', fkey(cp, 'default type'), ok, 'a binding without a type is a string binding' if ok else 'the default binding type is not a registered string type '
+                  '(or is not filled in before the type tables are consulted)', route, dflt[0][0] if dflt else cp.node)
     # BINDING grammar
     try:
         b = None
@@ -1244,23 +1296,40 @@ def _rule_e_bindings(rep, R, convs, pats):
         raise AnalysisError('BINDING regex: %s' % e)
     rep.check('R05.e', '%s::BINDING groups' % ROUTE, bool({'name', 'op', 'type'} <= set(gd)), 'BINDING exposes groups name / op / type' if {'name', 'op', 'type'} <= set(gd) else
               'BINDING lacks one of the groups name / op / type', route)
-    # each role variable is fed from the group of the same name
-    roles = {'name': R.namevar, 'type': T, 'op': R.opvar}
-    got = {}
-    for role, var in sorted(roles.items()):
-        if var is None:
-            raise AnalysisError('_compile_path_pattern: the variable holding the binding %s was not found' % role)
-        s, c = _var_sources(R, var)
+    # each role is fed from the group of the same name: the name put into the segment and every key recorded in the converter
+    # map, the key of the type tables, the quantifier -- whether held in a variable, a copy of it, or read off the match in place
+    def group_of_value(e, role):
+        g = _group_of(R, e)
+        if g is not None:
+            return g
+        if not isinstance(e, ast.Name):
+            raise AnalysisError('_compile_path_pattern: %s (binding %s) is not recognised as a group of BINDING.match(...)' % (short(e, 50), role))
+        s, c = _var_sources(R, e.id)
         if len(s) != 1 or s[0][1] is None:
-            raise AnalysisError('_compile_path_pattern: cannot tell where %s (binding %s) comes from' % (var, role))
+            raise AnalysisError('_compile_path_pattern: cannot tell where %s (binding %s) comes from' % (e.id, role))
         g = _group_of(R, s[0][1])
         if g is None:
-            raise AnalysisError('_compile_path_pattern: %s = %s is not recognised as a group of BINDING.match(...)' % (var, short(s[0][1], 50)))
-        got[role] = g
+            raise AnalysisError('_compile_path_pattern: %s = %s is not recognised as a group of BINDING.match(...)' % (e.id, short(s[0][1], 50)))
+        return g
+    as_name = lambda v: ast.Name(id=v, ctx=ast.Load()) if v is not None else None
+    roles = {'name': R.kw.get('name'), 'type': as_name(T), 'op': as_name(R.opvar)}
+    got = {}
+    for role, e in sorted(roles.items()):
+        if e is None:
+            raise AnalysisError('_compile_path_pattern: the variable holding the binding %s was not found' % role)
+        got[role] = group_of_value(e, role)
     ok = all(got[r] == r for r in roles)
-    ok = ok and all(norm(key) == R.namevar for st, key in _item_stores(cp, R.vcm))
+    keys = []
+    for st, key in _item_stores(cp, R.vcm):
+        try:
+            keys.append((key, group_of_value(key, 'name')))
+        except AnalysisError:
+            keys.append((key, 'name' if norm(key) == norm(roles['name']) else None))
+    ok = ok and all(g == 'name' for key, g in keys)
     rep.check('R05.e', fkey(cp, 'groups unpacked'), ok, 'name / type / op are taken from the groups of the same name' if ok else
-              'the parsed binding groups are unpacked into the wrong variables: %s' % ', '.join('%s <- group %r' % (roles[r], got[r]) for r in sorted(roles)), route, cp.node)
+              'the parsed binding groups are unpacked into the wrong variables: %s' %
+              ', '.join(['%s <- group %r' % (norm(roles[r]), got[r]) for r in sorted(roles)] +
+                        ['key %s <- %s' % (short(key, 30), 'group %r' % g if g else 'not a group') for key, g in keys if g != 'name']), route, cp.node)
 
 
 # ---- R05.f ------------------------------------------------------------------------------------------
